@@ -32,4 +32,10 @@ theorem C14_translated_fold_char (case : CaseMatching) (norm : Normalization) (c
   unfold Gen.Parse.fold_char foldChar
   cases case <;> cases norm <;> simp [CaseMatching.id, Normalization.id] <;> congr 1
 
+/-- **the byte path's case handling** (`make_ascii_lowercase` / `any(is_ascii_uppercase)` on the whole needle), translated from the
+    source, **is the model's** (`caseN`, `icOf`: what `newInner_ascii` shows `newInner` to compute on ASCII text) -/
+theorem C14_translated_ascii_case (case : CaseMatching) (n : List Nat) :
+    Gen.Parse.ascii_case (fun l => l.map asciiLower) (fun l => l.any (fun b => 65 ≤ b && b ≤ 90)) case.id n = (caseN case n, icOf case n) := by
+  cases case <;> rfl
+
 end NucleoVerif
